@@ -170,6 +170,20 @@ CHECKS = {
              'bootstrap, and after a change event on a list option append+save must carry old and new elements.',
         note='Trusted: mc/simtor.py (GETCONF/config/names/config/defaults/CONF_CHANGED rendering). Unset is explored only for '
              'types Tor can leave NULL; an external change racing an unsaved local edit of the same option is excluded.'),
+    'C18': dict(
+        engine=E1, design='DESIGN.md section 4 / C18',
+        technique='exhaustive enumeration of existing SOCKSPort configurations x requested port x entry point on the real '
+                  'selection code against a simulated Tor configuration store, plus all connect-outcome sequences for the '
+                  'guessed ports on a fake reactor',
+        text='Existing configurations: unset, default via __SocksPort, every ordered list of 1..3 distinct entries over six '
+             'entry forms (port, host:port, unix socket, with and without trailing option words) - 158 (quick: 98) - x '
+             'requested {none, each present port, two absent ones incl. a substring of a present one} x 4 entry points '
+             '(_create_socks_endpoint, TorClientEndpoint.from_connection, Tor._default_socks_endpoint, '
+             'TorConfig.create_socks_endpoint). Oracle: no SETCONF when a usable port exists and the endpoint is one of them; '
+             'otherwise exactly one SETCONF re-listing every reported entry verbatim plus the new one, and the simulated store '
+             'still holds every old listener. Fallback: every outcome sequence over {refused, timeout, success, SOCKS error, '
+             'lost after connect} for 9050 then 9150.',
+        note='Trusted: mc/simtor.py GETCONF/SETCONF, the FakeReactor connector doubles. SOCKSPort 0 entries are not explored.'),
 }
 
 PENDING = {}
